@@ -70,87 +70,109 @@ def _is(d, k):
     return isinstance(d, list) and d and d[0] == k
 
 
-def match_K1(d):
+def _k1_at(d):
     """Power whose base is a Power: (a**b)**c prints as a**b**c."""
-    return _is(d, "**") and _is(d[1], "**") and exprdsl.size(d) <= 5
+    return _is(d, "**") and _is(d[1], "**")
 
 
-def match_K2(d):
+def _k2_at(d):
     """Comparison with a Comparison operand: printed without parentheses."""
-    return _is(d, "cmp") and (_is(d[3], "cmp") or _is(d[2], "cmp")) and exprdsl.size(d) <= 5
+    return _is(d, "cmp") and (_is(d[3], "cmp") or _is(d[2], "cmp"))
 
 
-def match_K3(d):
-    """Conditional expression as a call argument (positional or keyword value)
+def _k3_followed_ifs(d):
+    """Positions of conditional expressions used as a call argument (positional or keyword value)
     that is followed by another argument: printed without parentheses."""
     if not _is(d, "call"):
-        return False
-    args = list(d[2]) + list((d[3] if len(d) > 3 else {}).values())
-    ifs = [a for a in args if _is(a, "if")]
-    if len(ifs) != 1 or len(args) < 2:
-        return False
-    others = [a for a in args if not _is(a, "if")]
-    return all(x[0] in ("v", "c") for x in others) and all(
-        x[0] in ("v", "c") for x in ifs[0][1:])
+        return [], []
+    args = list(d[2])
+    kw = exprdsl.kwitems(d)
+    pos = [i for i, a in enumerate(args) if _is(a, "if") and (i < len(args) - 1 or kw)]
+    kws = [n for j, (n, v) in enumerate(kw) if _is(v, "if") and j < len(kw) - 1]
+    return pos, kws
 
 
+def _k3_at(d):
+    pos, kws = _k3_followed_ifs(d)
+    return bool(pos or kws)
+
+
+def _anywhere(fn):
+    return lambda d: any(fn(sub) for _, sub in exprdsl.subterms(d))
+
+
+match_K1, match_K2, match_K3 = _anywhere(_k1_at), _anywhere(_k2_at), _anywhere(_k3_at)
 KNOWN_MATCHERS = {"C19-K1": match_K1, "C19-K2": match_K2, "C19-K3": match_K3}
 
 
-def abstract_known(d, ctr, which):
-    """Replace every sub-term that has a known-defective shape by a variant
-    without it (inner node -> fresh variable)."""
+def abstract_known(d, ctr, which, detached):
+    """Replace every sub-term that has a known-defective shape by a variant without it (inner node ->
+    fresh variable).  The operands of the replaced inner node are appended to *detached*: they are
+    round-tripped on their own, so nothing the abstraction removes escapes the check."""
     k = d[0]
     if k in ("v", "c"):
         return d
 
     def rec(x):
-        return abstract_known(x, ctr, which)
+        return abstract_known(x, ctr, which, detached)
+
+    def fresh(removed):
+        detached.extend(x for x in removed[1:] if isinstance(x, list) and x and x[0] not in ("v", "c"))
+        return ["v", "ab%d" % next(ctr)]
     if k == "**" and "C19-K1" in which and _is(d[1], "**"):
-        return ["**", ["v", "ab%d" % next(ctr)], rec(d[2])]
+        return ["**", fresh(d[1]), rec(d[2])]
     if k == "cmp" and "C19-K2" in which and (_is(d[2], "cmp") or _is(d[3], "cmp")):
-        l = ["v", "ab%d" % next(ctr)] if _is(d[2], "cmp") else rec(d[2])
-        r = ["v", "ab%d" % next(ctr)] if _is(d[3], "cmp") else rec(d[3])
+        l = fresh(["cmp"] + d[2][2:]) if _is(d[2], "cmp") else rec(d[2])
+        r = fresh(["cmp"] + d[3][2:]) if _is(d[3], "cmp") else rec(d[3])
         return ["cmp", d[1], l, r]
     if k == "call":
         args = list(d[2])
-        kw = dict(d[3] if len(d) > 3 else {})
-        if "C19-K3" in which and len(args) + len(kw) >= 2:
-            for i, a in enumerate(args):
-                if _is(a, "if"):
-                    args[i] = ["v", "ab%d" % next(ctr)]
-            for n in list(kw):
-                if _is(kw[n], "if"):
-                    kw[n] = ["v", "ab%d" % next(ctr)]
-        return ["call", d[1], [rec(a) for a in args], {n: rec(v) for n, v in kw.items()}]
+        kw = exprdsl.kwitems(d)
+        if "C19-K3" in which:
+            pos, kws = _k3_followed_ifs(d)
+            for i in pos:
+                args[i] = fresh(args[i])
+            kw = [(n, fresh(v) if n in kws else v) for n, v in kw]
+        kwout = [[n, rec(v)] for n, v in kw]
+        return ["call", d[1], [rec(a) for a in args], kwout if isinstance(d[3] if len(d) > 3 else {}, list) else {n: v for n, v in kwout}]
     if k == "cmp":
         return ["cmp", d[1], rec(d[2]), rec(d[3])]
     return [k] + [rec(x) for x in d[1:]]
 
 
 def triage(ex, d, open_ids):
-    """Returns (known_hits: list of ids, violation: dict|None)."""
+    """Returns (known_hits: list of ids, violation: dict|None).  A failing expression is minimised; if the
+    minimal witness contains a shape of an open known finding, every occurrence of that shape in the
+    expression is abstracted away and the abstracted expression AND the removed operands are checked again;
+    it is a known case only if all of them hold (or fail for a known shape again)."""
     hits = []
     ctr = itertools.count()
-    cur = d
-    for _ in range(6):
-        f = roundtrip(ex, cur)
-        if f is None:
-            return hits, None
-        m = exprdsl.minimise(cur, lambda t: roundtrip(ex, t) is not None, fresh_prefix="mz")
-        which = [fid for fid, fn in KNOWN_MATCHERS.items() if fid in open_ids and fn(m)]
-        if not which:
-            fm = roundtrip(ex, m) or f
-            return hits, {"expr": d, "minimal": m, "failure": fm}
-        hits.extend(which)
-        nxt = abstract_known(cur, ctr, set(which))
-        if nxt == cur:
-            # minimal witness has a known shape but the original does not
-            # contain it syntactically: report
-            fm = roundtrip(ex, m) or f
-            return hits, {"expr": d, "minimal": m, "failure": fm}
-        cur = nxt
-    return hits, {"expr": d, "minimal": cur, "failure": {"kind": "triage_budget"}}
+    work = [d]
+    budget = 40
+    while work:
+        cur = work.pop()
+        while True:
+            budget -= 1
+            if budget < 0:
+                return hits, {"expr": d, "minimal": cur, "failure": {"kind": "triage_budget"}}
+            f = roundtrip(ex, cur)
+            if f is None:
+                break
+            m = exprdsl.minimise(cur, lambda t: roundtrip(ex, t) is not None, fresh_prefix="mz")
+            which = [fid for fid, fn in KNOWN_MATCHERS.items() if fid in open_ids and fn(m)]
+            if not which:
+                fm = roundtrip(ex, m) or f
+                return hits, {"expr": d, "minimal": m, "failure": fm}
+            hits.extend(which)
+            detached = []
+            nxt = abstract_known(cur, ctr, set(which), detached)
+            if nxt == cur:
+                # the minimal witness has a known shape but the expression does not contain it syntactically: report
+                fm = roundtrip(ex, m) or f
+                return hits, {"expr": d, "minimal": m, "failure": fm}
+            work.extend(detached)
+            cur = nxt
+    return hits, None
 
 
 def check_backtick(name):
